@@ -190,6 +190,9 @@ KnownCount(r) ==
 KnownSat(r) ==
   CASE r.name = "schur" -> IF r.args[1] <= 13 THEN 1 ELSE 0
     [] r.name = "magic_square" -> IF r.args[1] = 2 THEN 0 ELSE 1
+    \* counting identities of a (v, b, r, k, lambda) design: when one fails there is no design
+    [] r.name = "bibd" -> IF r.args[1] * r.args[3] # r.args[2] * r.args[4] \/ r.args[5] * (r.args[1] - 1) # r.args[3] * (r.args[4] - 1)
+                          THEN 0 ELSE -1
     [] OTHER -> -1
 KnownOpt(r) ==
   CASE r.name = "golomb" /\ r.args[1] <= 10 -> KnownGolomb[r.args[1]]
